@@ -18,6 +18,8 @@ pub fn string_symbol(vm: &mut Vm) -> Result<VCell, Error> {
     let sym = s
         .char_indices()
         .map(|(idx, c)| match c {
+            // symbol->string decodes escapes: the introducer itself is escaped
+            '\\' => format!("\\x{:x};", c as u32),
             c if idx == 0 && lex::is_initial_identifier(c) => c.to_string(),
             c if idx > 0 && lex::is_subsequent_identifier(c) => c.to_string(),
             c => format!("\\x{:x};", c as u32),
